@@ -502,6 +502,23 @@ def nodes_through_helpers(fn, find_method=None, depth=3, _seen=(), want=None, _m
         out.append(c)
         for ch in ast.iter_child_nodes(c):
             dfs(ch)
+        if depth > 0 and isinstance(c, ast.Call) and isinstance(c.func, ast.Name) and c.func.id in ("map", "filter") and c.args:
+            # map(self.h, xs) / map(h, xs): h is applied to every element — its body is part of what happens here
+            f0 = c.args[0]
+            hm = None
+            if isinstance(f0, ast.Attribute) and isinstance(f0.value, ast.Name) and f0.value.id in ("self", "cls") \
+                    and find_method is not None:
+                hm = find_method(f0.attr)
+            elif isinstance(f0, ast.Name) and find_function is not None:
+                hm = find_function(f0.id)
+            if hm is not None and hm.name not in _seen and hm.name != getattr(fn, "name", None):
+                if want is None or has_wanted(hm, depth - 1, _seen + (hm.name,)):
+                    hv = clone(hm)
+                    for n_ in ast.walk(hv):
+                        for ch in ast.iter_child_nodes(n_):
+                            ch._parent = n_
+                    hv._parent = c
+                    out.extend(nodes_through_helpers(hv, find_method, depth - 1, _seen + (hm.name,), want, memo, find_function))
         if depth > 0 and isinstance(c, ast.Call):
             h = _helper_of_call(c, find_method, find_function)
             if h is not None and h.name not in _seen and h.name != getattr(fn, "name", None):
